@@ -575,7 +575,7 @@ def dt(*args, dialect = 'uk', none = datetime.datetime.now, tzinfo = None):
         elif is_bump(t):
             return dt_bump(dt(0, tzinfo = tzinfo), t)
         elif is_str(t):
-            res = uk2dt(t) if dialect == 'uk' else us2dt(t)
+            res = uk2dt(t) if str(dialect).lower() == 'uk' else us2dt(t) ## 'UK' is the uk dialect too (the docstring spells the other one 'US'): it was read as us, days and months silently swapped
             return res if tzinfo is None else tz_replace(res, tzinfo)    
                 # return int2dt(int(t)) + datetime.timedelta(float(t) % 1)
         else:
